@@ -208,7 +208,9 @@ class Model:
         if hasattr(self,'project_closures'):
             lp_vars_string += 'Project closure variables:\n'
             for var in self.project_closures:
-                if (var.varValue > 0.9):
+                # A closure variable with zero quotas never enters the
+                # program and keeps no value: that project is open.
+                if (var.varValue is not None and var.varValue > 0.9):
                     lp_vars_string += '1 '
                 else:
                     lp_vars_string += '0 '
